@@ -36,8 +36,11 @@ def run(ctx):
                 ("hist5-ctx", dict(MaxNodes=3, GAlpha={-2}, Ops={"mul"}, MaxHist=5, MaxBackward=99, MaxCtx=1,
                                    Acts={"op", "bw", "ctx"}, InitLeaves=LEAVES2), 60000),
                 # shape-changing and multi-output operators over a vector leaf that already holds a gradient
-                ("hist4-vec", dict(MaxNodes=4, GAlpha={-2, 3}, Ops={"mul", "sum", "idx", "unbind", "stack"}, UseVec=True, MaxHist=4, MaxBackward=99,
-                                   Acts={"op", "bw", "zero"}, InitLeaves=[dict(vec=True, rg=True)]), 60000)]
+                ("hist4-vec", dict(MaxNodes=4, GAlpha={-2, 3}, Ops={"mul", "sum", "idx", "unbind", "stack", "gather"}, UseVec=True, MaxHist=4, MaxBackward=99,
+                                   Acts={"op", "bw", "zero"}, InitLeaves=[dict(vec=True, rg=True)]), 60000),
+                # resets through Module.zero_grad / Optimizer.zero_grad while a parameter is frozen, then unfrozen again
+                ("hist5-freeze", dict(MaxNodes=2, GAlpha={-2, 3}, Ops={"mul"}, UseVec=True, MaxHist=5, MaxBackward=99,
+                                      Acts={"bw", "setrg", "zeroset", "zero"}, InitLeaves=[dict(vec=True, rg=True), dict(vec=False, rg=True)]), 60000)]
         sims = [("sim", dict(MaxNodes=6, GAlpha={1, -2, 3}, Ops={"add", "mul", "sub", "neg", "sq", "sum", "idx", "stack", "unbind"}, UseVec=True,
                              MaxHist=12, MaxBackward=99, Acts={"op", "bw", "zero", "retain", "zeroset"},
                              InitLeaves=[dict(vec=False, rg=True), dict(vec=True, rg=True), dict(vec=False, rg=False)]), 30)]
